@@ -88,6 +88,15 @@ Fixpoint zfact (n : nat) : Z := match n with O => 1%Z | S k => (Z.of_nat (S k) *
 Definition gammaQ (a : Q) : option Q :=
   if is_int a && Z.leb 1 (to_int a) && Z.leb (to_int a) 40 then Some (inject_Z (zfact (Z.to_nat (to_int a - 1)))) else None.
 
+(* case files only evaluate powers of moderate size: beyond about 40000 bits a value is left undecided *)
+Definition pow_too_big (a : Q) (e : Z) : bool :=
+  Z.ltb 40000 ((Z.log2 (Z.abs (Qnum a)) + Z.log2 (Z.pos (Qden a)) + 1) * Z.abs e).
+
+(* bartiq's sgn: the sign of a number, zero within 1e-12 of zero *)
+Definition sgnQ (a : Q) : Q :=
+  if Qle_bool a (- (1 # 1000000000000)) && negb (Qeq_bool a (- (1 # 1000000000000))) then (-1)
+  else if Qle_bool (1 # 1000000000000) a && negb (Qeq_bool a (1 # 1000000000000)) then 1 else 0.
+
 Definition stdIo (o : op) (args : list Q) : option Q :=
   match o, args with
   | OAdd, _ => Some (Qred (fold_right (fun a b => Qred (a + b)) 0 args))
@@ -98,6 +107,7 @@ Definition stdIo (o : op) (args : list Q) : option Q :=
       if is_int b then
         if Qzero a && Z.ltb (to_int b) 0 then None
         else if Z.ltb 64 (Z.abs (to_int b)) then None
+        else if pow_too_big a (to_int b) then None
         else Some (Qred (Qpower a (to_int b)))
       else
         (* half-integer exponents on perfect squares (square roots that come out exact) *)
@@ -106,6 +116,7 @@ Definition stdIo (o : op) (args : list Q) : option Q :=
           match qsqrt (Qred a) with
           | Some r => if Qzero r && Z.ltb (Qnum b2) 0 then None
                       else if Z.ltb 64 (Z.abs (Qnum b2)) then None
+                      else if pow_too_big r (Qnum b2) then None
                       else Some (Qred (Qpower r (Qnum b2)))
           | None => None
           end
@@ -117,7 +128,9 @@ Definition stdIo (o : op) (args : list Q) : option Q :=
   | OMin, a :: rest => Some (fold_right Qmin a rest)
   | OFloor, [a] => Some (inject_Z (Qfloor a))
   | OCeil, [a] => Some (inject_Z (Qceiling a))
-  | OFun f, [a] => if String.eqb f "gamma" then gammaQ a else Some (Qred (funQ f args))
+  | OFun f, [a] => if String.eqb f "gamma" then gammaQ a
+                   else if String.eqb f "sgn" then Some (sgnQ a)
+                   else Some (Qred (funQ f args))
   | OFun f, _ => Some (Qred (funQ f args))
   | _, _ => None
   end.
